@@ -314,3 +314,104 @@ def accessor_semantics(w, S, R):
                 if [id(x) for x in got] != [id(x) for x in want]:
                     return False, "%s with %d scrollback line(s), limit %s returns %d line(s); expected %s" % (api, sb, "None" if lim == H.NONE_V else lim[2][0], len(got), "all %d lines of the active buffer" % len(all_lines) if kind == "all" else "the last 2 (the view)")
     return True, out_n
+
+
+def edit_handlers_semantics(w, S, R):
+    """ED / EL (every selector), ECH / ICH / DCH (counts 0..cols+1) and DECALN evaluated as whole handlers on a 4x3
+    symbolic terminal for every cursor position incl. the wrap-pending column: exactly the documented cells become
+    blanks in the pen ('E' in the default pen for DECALN), the rest of the row shifts for ICH / DCH, every other
+    cell and row stays, the cursor stays (DCH leaves the wrap-pending column first), the soft-wrap mark of the cursor
+    row is cleared exactly when its tail is erased / characters are deleted.  -> (True, n) | (False, what)"""
+    from rules import c07
+    cols, rows = 4, 3
+    n = 0
+    jobs = []
+    for (variant, scope), ref in sorted(c07.REF_SCOPES.items()):
+        for h in w.handler(variant):
+            jobs.append((variant, h, [("v", scope)], ("erase", ref), scope.rsplit("::", 1)[1]))
+    for variant, kind in (("Ech", "ech"), ("Ich", "ich"), ("Dch", "dch")):
+        for h in w.handler(variant):
+            for cnt in range(0, cols + 2):
+                jobs.append((variant, h, [cnt], (kind, None), str(cnt)))
+    for h in w.handler("Decaln"):
+        jobs.append(("Decaln", h, [], ("decaln", None), ""))
+    for variant, h, args, (kind, ref), label in jobs:
+        for row in range(rows):
+            for col in range(cols + 1):
+                me = symbolic_terminal(w, S, R, cols, rows, col, row)
+                st = me[2]
+                st[R["pending_wrap"]] = (col == cols)
+                lines = st[S.active_buffer][2][S.lines_field]
+                for l in lines.items:
+                    l[2][S.wrap_field] = True
+                names = [[c[1] for c in l[2][S.cells_field].items] for l in lines.items]
+                it = prims.VecInterp(w.facts)
+                it.call_fn(h, [me] + list(args))
+                bl = it.call_fn("cell::Cell::blank", [PEN])
+                got = []
+                for l in lines.items:
+                    cs = []
+                    for c in l[2][S.cells_field].items:
+                        if c == bl:
+                            cs.append("blank")
+                        elif isinstance(c, tuple) and c[0] == "sym":
+                            cs.append(c[1])
+                        elif kind == "decaln" and isinstance(c, tuple) and c[0] == "v" and "69" in repr(c[2][0]) and "default" in repr(c[2][1]).lower():
+                            cs.append("E")
+                        elif kind == "decaln" and isinstance(c, tuple) and c[0] in ("ext", "v") and "69" in repr(c):
+                            cs.append("E")
+                        else:
+                            cs.append("?%r" % (c,))
+                    got.append((cs, bool(l[2][S.wrap_field])))
+                want = [(list(r), True) for r in names]
+                vr = row + 1                      # index into lines (one scrollback line first)
+                c0 = min(col, cols - 1)
+                wcur = (col, row)
+                wpend = (col == cols)
+                if kind == "erase":
+                    c = ref["cols"]
+                    lo, hi = {"col..cols": (col, cols), "0..cols": (0, cols), "0..min(col+1,cols)": (0, min(col + 1, cols))}.get(c, (0, 0))
+                    cells = want[vr][0]
+                    for x in range(lo, hi):
+                        cells[x] = "blank"
+                    want[vr] = (cells, False if ref["unwrap"] == "always" else True)
+                    rr = ref["rows"]
+                    blank_row = (["blank"] * cols, False)
+                    if rr == "row+below":
+                        for r2 in range(row + 1, rows):
+                            want[r2 + 1] = blank_row
+                    elif rr == "above+row":
+                        for r2 in range(0, row):
+                            want[r2 + 1] = blank_row
+                    elif rr == "all":
+                        for r2 in range(rows):
+                            want[r2 + 1] = blank_row
+                elif kind == "ech":
+                    m = min(max(args[0], 1), cols - col) if col <= cols else 0
+                    cells = want[vr][0]
+                    for x in range(col, col + m):
+                        cells[x] = "blank"
+                    want[vr] = (cells, False if col + m == cols else True)
+                elif kind == "ich":
+                    m = min(max(args[0], 1), cols - col)
+                    r0 = names[vr]
+                    want[vr] = (r0[:col] + ["blank"] * m + r0[col:cols - m], True)
+                elif kind == "dch":
+                    if col == cols:
+                        wcur, wpend = (cols - 1, row), False
+                    cc = wcur[0]
+                    m = min(max(args[0], 1), cols - cc)
+                    r0 = names[vr]
+                    want[vr] = (r0[:cc] + r0[cc + m:] + ["blank"] * m, False)
+                elif kind == "decaln":
+                    for r2 in range(rows):
+                        want[r2 + 1] = (["E"] * cols, got[r2 + 1][1])
+                n += 1
+                desc = "%s %s with the cursor at (%d,%d)%s on a %dx%d screen" % (variant.upper(), label, col, row, " (wrap pending)" if col == cols else "", cols, rows)
+                for i, (g, x) in enumerate(zip(got, want)):
+                    if g != x:
+                        return False, "%s: row %d becomes %s (soft-wrapped: %s); the documented extent gives %s (soft-wrapped: %s)" % (desc, i - 1, g[0], g[1], x[0], x[1])
+                cur = st[R["cursor"]][2]
+                if (cur["col"], cur["row"]) != wcur or st[R["pending_wrap"]] != wpend:
+                    return False, "%s: cursor / wrap-pending end as (%s,%s)/%s, expected (%d,%d)/%s" % (desc, cur["col"], cur["row"], st[R["pending_wrap"]], wcur[0], wcur[1], wpend)
+    return True, n
